@@ -1255,7 +1255,7 @@ class Emitter:
         elif name == '__cxa_rethrow':
             lines.append("__exc_pending = 1;")
         elif s.opts.get('cut') and name == f.name and s.opts['cut'] in name:
-            s.cut_protos.add(f"extern {s.cty(ins.ret)} x_cut_recursion({', '.join(s.cty(at) for (at, _) in ins.args)});")
+            s.cut_protos.add(f"extern {s.cty(ins.ret)} x_cut_recursion({', '.join('void*' if isinstance(s.resolve(at), PtrTy) else s.cty(at) for (at, _) in ins.args)});")
             lines.append(f"{res}x_cut_recursion({', '.join(args)});")
             throws = False
         else:
